@@ -667,3 +667,79 @@ func c03SubstitutionJudges_(p *Prog) *RuleResult {
 	r.Floor(1)
 	return r
 }
+
+// ---------------------------------------------------------------------------------------------
+// C03/R14 substitution-stops-at-object-spread.
+//
+// substituteSingleUseSymbolInExpr walks an object literal property by property, trying to place a
+// single-use local's initialiser at its use. It may continue past a property only if evaluating
+// that property cannot interfere with the initialiser. A spread property `...o` copies o's own
+// enumerable properties, which invokes o's getters — arbitrary code. The walk has to stop after a
+// spread, exactly as it stops after a computed key. Rule: in the loop over EObject.Properties the
+// continuation to the next property is control dependent on a test of the property's Kind.
+func c03SubstitutionStopsAtSpread(p *Prog) *RuleResult {
+	r := NewRule("C03/R14 substitution-stops-at-object-spread", "the single-use substitution does not continue past a spread property of an object literal (spreading invokes getters)")
+	fn := p.FindFunc("js_parser.(*parser).substituteSingleUseSymbolInExpr")
+	if !r.Anchor("js_parser.(*parser).substituteSingleUseSymbolInExpr", fn != nil) {
+		return r
+	}
+	loops := naturalLoops(fn)
+	n := 0
+	for header, body := range loops {
+		// the loop over <EObject>.Properties: an IndexAddr on a load of that field inside the body
+		isObjLoop := false
+		for b := range body {
+			for _, in := range b.Instrs {
+				if ia, ok := in.(*ssa.IndexAddr); ok {
+					if owner, name, ok := loadedField(ia.X); ok && owner == "js_ast.EObject" && name == "Properties" {
+						isObjLoop = true
+					}
+				}
+			}
+		}
+		if !isObjLoop {
+			continue
+		}
+		n++
+		r.Instances++
+		key := "substituteSingleUseSymbolInExpr continues to the next property of an object literal"
+		bad := ""
+		for _, pred := range header.Preds {
+			if !body[pred] {
+				continue
+			}
+			tested := false
+			for _, ifi := range controlDepIfsTransitive(pred) {
+				if !body[ifi.Block()] {
+					continue
+				}
+				sliceCond(ifi.Cond, func(v ssa.Value) bool {
+					switch x := v.(type) {
+					case *ssa.FieldAddr:
+						if fieldAddrName(x) == "Kind" && namedTypeName(x.X.Type()) == "js_ast.Property" {
+							tested = true
+						}
+					case *ssa.Field:
+						if fieldValName(x) == "Kind" && namedTypeName(x.X.Type()) == "js_ast.Property" {
+							tested = true
+						}
+					}
+					return true
+				})
+			}
+			if !tested {
+				bad = p.Pos(firstPos(pred))
+			}
+		}
+		if bad == "" {
+			r.OK(key, true, "every continuation is conditional on the property's Kind")
+		} else {
+			r.Fail(key, bad, "the walk moves on to the next property without looking at the property's Kind: a spread property `...o` runs o's getters, and an initialiser moved past it is evaluated after code it used to precede (`let x = y; return {...o, b: x}` with a getter in o that assigns y)")
+		}
+	}
+	if !r.Anchor("the loop over EObject.Properties in substituteSingleUseSymbolInExpr", n >= 1) {
+		return r
+	}
+	r.Floor(1)
+	return r
+}
